@@ -483,9 +483,9 @@ Proof.
     rewrite (IHu v Cu Cv Suv H1). f_equal. apply IHx; assumption.
 Qed.
 
-Corollary hash_coherent : forall a b,
-  canonical a -> canonical b -> same_order a b -> jeqb a b = true -> hash_feed a = hash_feed b.
-Proof. intros a b Ca Cb So H. rewrite (jeqb_canonical_eq a b Ca Cb So H). reflexivity. Qed.
+Corollary hash_coherent : forall (mh : list hw -> N) a b,
+  canonical a -> canonical b -> same_order a b -> jeqb a b = true -> hash_feed mh a = hash_feed mh b.
+Proof. intros mh a b Ca Cb So H. rewrite (jeqb_canonical_eq a b Ca Cb So H). reflexivity. Qed.
 
 Theorem jeqb_refl : forall a, canonical a -> jeqb a a = true.
 Proof.
